@@ -269,6 +269,19 @@ func (r *rewriter) isCtxDone(e ast.Expr) (ast.Expr, bool) {
 	return s.X, true
 }
 
+// isCtxErr reports whether c is X.Err() with X a context.Context.
+func (r *rewriter) isCtxErr(c *ast.CallExpr) bool {
+	if len(c.Args) != 0 {
+		return false
+	}
+	s, ok := c.Fun.(*ast.SelectorExpr)
+	if !ok || s.Sel.Name != "Err" {
+		return false
+	}
+	t := r.typeOf(s.X)
+	return t != nil && t.String() == "context.Context"
+}
+
 func (r *rewriter) fail(pos token.Pos, format string, a ...any) {
 	if r.err == nil {
 		r.err = fmt.Errorf("%s: %s", r.fset.Position(pos), fmt.Sprintf(format, a...))
@@ -367,6 +380,9 @@ func (r *rewriter) rewriteFile(f *ast.File) (bool, error) {
 						}
 					}
 				}
+			case r.isCtxErr(n):
+				r.needVsched, r.changed = true, true
+				c.Replace(call(sel("vsched", "CtxErr"), n.Fun.(*ast.SelectorExpr).X))
 			case inCmd && r.isPkgSel(n.Fun, "os", "Exit"):
 				r.needExit, r.changed = true, true
 				r.st.Exits++
